@@ -325,6 +325,26 @@ def run(ctx):  # noqa: C901, PLR0912, PLR0915
     ok = bool(regs) and not any(g.path_exists(a, r) or g.path_exists(r, a) for a, _ in sr for r in regs)
     ctx.ob('C09.R6', 'registered xor completed', ok,
            'a transaction is registered for later completion only on paths that did not complete the Future', fi=co)
+    # whatever is registered for later completion starts with the report parts that arrived before the response: on every
+    # path the parts handed to OperationData come from a scan of the early-report cache (never an empty list "because the
+    # reports are still to come")
+    ok_scan = bool(regs)
+    wit_scan = []
+    for rn in regs:
+        v = rn.stmt.value
+        parts_arg = v.args[2] if isinstance(v, ast.Call) and len(v.args) >= 3 else None
+        if parts_arg is None:
+            ok_scan = False
+            continue
+        for facts_, leaf in g.value_cases(rn, parts_arg):
+            t = unparse(leaf)
+            wit_scan.append(f'{[f for f in facts_.resolved][-2:]} => {t[:80]}')
+            ok_scan = ok_scan and '_last_operation_invoked_reports' in t and 'TransactionId' in t
+    ctx.ob('C09.R6', 'registration carries the early report parts', ok_scan,
+           'call_operation registers a transaction together with all report parts of it that arrived before the response'
+           if ok_scan else
+           'call_operation registers a transaction without scanning the cache of early reports on some path: a report that '
+           'overtook the response is lost (the result misses parts, or the Future never completes)', fi=co, witness=wit_scan)
     post = g.nodes_calling('post_message')
     ok = bool(post) and all(not g.held_withs(p, '_transactions_lock') for p, _ in post) and \
         all(g.held_withs(n, '_transactions_lock') for n, _ in sr)
